@@ -3,6 +3,7 @@
 use ddo::*;
 
 mod gap;
+mod fringe;
 
 fn main() {
     let args: Vec<String> = std::env::args().collect();
@@ -13,6 +14,8 @@ fn main() {
     let rest: Vec<&str> = args[2..].iter().map(|s| s.as_str()).collect();
     let ok = match args[1].as_str() {
         "gap" => gap::replay(&rest),
+        "nodup_fringe" => fringe::replay(&rest, true),
+        "simple_fringe" => fringe::replay(&rest, false),
         other => { eprintln!("unknown case {other}"); std::process::exit(2) }
     };
     std::process::exit(if ok { 0 } else { 1 });
